@@ -1,11 +1,11 @@
 """Registry of claimed properties -> MANIFEST.json entries (tools/gen_manifest.py renders it)."""
 
-TRUSTED = ("Trusted base: Python semantics without monkey-patching; pydantic validates/coerces constructor keywords "
+TRUSTED = ("Decided on the normalised program model (sa/normalise.py, sa/alpha.py: semantics-preserving undoing of ordinary refactorings; DESIGN II.8-II.9); a construct that cannot be re-identified is an analysis gap (exit 2), a VIOLATION needs positive evidence. Trusted base: Python semantics without monkey-patching; pydantic validates/coerces constructor keywords "
            "to declared field types; polars/PIL/shutil/tempfile behave as documented; no getattr-computed calls. ")
 
 CHECKS = {
     "C01": dict(
-        technique="abstract interpretation of the string builders over a shape domain (brace/\\cellx-\\cell/lexical folds) + AST rules (type agreement, optional-return discipline, table agreement)",
+        technique="abstract interpretation of the string builders over a shape domain (brace / \\cellx-\\cell / lexical folds; unsupported constructs join to Unk -> analysis gap) + structural rules (attribute->model type agreement through expanded keywords, optional-return discipline, table agreement)",
         text="Static argument (A) for: single balanced top-level group with RTF signature on all three encode paths, "
              "\\cellx=\\cell per row, lexical adjacency of control words/parameters/text, integer parameters; necessary "
              "conditions (N) for crash-freedom: attribute->model type agreement, optional results tested before use, "
@@ -16,19 +16,20 @@ CHECKS = {
              "run-time exceptions; numeric positivity/monotonicity of \\cellx values.",
         ref="DESIGN.md §4 C01"),
     "C19": dict(
-        technique="AST rules over pydantic validators: coverage matrix, raise discipline, name resolvability, table agreement",
-        text="Necessary conditions (N), exception type argument (A): each constrained field named by the property has a "
-             "validator with a ValueError raise guarded by the right kind of test against the right table (37-row matrix); "
+        technique="abstract evaluation (SDT) of each field's validators and declared constraints on an uninterpreted value: every valuation in which the value lies outside the legal region must raise a ValueError subclass, for scalar / flat / nested position + raise discipline + exhaustive table agreement + decision tables of document-level cross-field checks",
+        text="Static argument (A) per constrained field: its validators and declared constraints are evaluated on an uninterpreted value; in every "
+             "valuation where the value is outside the legal region (code table, positive / non-negative, length) a ValueError subclass is raised, "
+             "for scalar, flat and nested position; "
              "every raise in validators is ValueError/FileNotFoundError; every cls./self. attribute read in a raising "
              "validator resolves; flat and nested list shapes both reach a raise; positivity guards include 0; accepted "
              "values are a subset of the emitter tables; document-level cross-field checks present and reachable.",
-        note=TRUSTED + "Not decided: rejection of every concrete invalid value at every position (validators are checked "
-             "structurally, not executed).",
+        note=TRUSTED + "Not decided: pydantic type coercion and the content of before-validators; conditions other than the value's region are "
+             "left free (all valuations must raise).",
         ref="DESIGN.md §4 C19"),
 }
 
 CHECKS["C10"] = dict(
-    technique="interval analysis of the escaper loop over all code points + taint over abstract document shapes + CFG gating + writer encoding rule",
+    technique="interval + affine-form analysis of the escaper (entered through helpers, loop or comprehension) over all Unicode scalar values + taint over abstract document shapes + symbolic run of the text pipeline per flag value + writer-encoding rule",
     text="Static argument (A): the per-character escaping loop is executed symbolically with ord(c) ranging over every Unicode "
          "scalar value; each path's code-point set and appended pieces are computed exactly (intervals, affine forms). "
          "Pass-through sets must lie inside the range the file encoding and \\ansi decode identically; \\u values must lie in "
@@ -40,7 +41,7 @@ CHECKS["C10"] = dict(
     ref="DESIGN.md §4 C10")
 
 CHECKS["C11"] = dict(
-    technique="table confluence + regex-AST/table agreement + CFG gating rules over the text-conversion pipeline",
+    technique="symbolic run of the conversion pipeline (uninterpreted text symbol, both flag values, fixed point over loops) + table confluence + regex-AST/table agreement exhaustive over 682 keys + callback evaluated on a symbolic match",
     text="Static argument (A) for the table-driven part: the ordered replacement table is confluent (no output re-translated, no "
          "key destroyed, documented token set exactly); the tokenizer regex, parsed with re._parser, has the documented form and "
          "is matched against every one of the 682 dictionary keys (exhaustive); control words injected before the LaTeX pass hit "
@@ -52,7 +53,7 @@ CHECKS["C11"] = dict(
     ref="DESIGN.md §4 C11")
 
 CHECKS["C12"] = dict(
-    technique="typestate over the call graph with CFG dominance (colour context), pipeline normal-form agreement, exhaustive table integrity",
+    technique="forward must-analysis of the colour-context protocol over each CFG with exceptional edges + typestate over the call graph + pipeline normal forms through temporaries + may-analysis of collected attribute paths + exhaustive table integrity",
     text="Static argument (A): context typestate is propagated from rtf_encode over the call graph; the context-dependent index "
          "lookup is never entered unless a dominating set_document_context(document) precedes and no clear intervenes, on all "
          "three encode paths; table and index are computed by the same filter/validate/sort pipeline with one unconditional entry "
@@ -63,7 +64,7 @@ CHECKS["C12"] = dict(
     ref="DESIGN.md §4 C12")
 
 CHECKS["C14"] = dict(
-    technique="CFG pairing with exceptional edges + interprocedural ownership (freshness) analysis + effect/determinism rules",
+    technique="set/clear pairing of the colour context on all normal and exceptional exits (CFG must-pass; generator and class-based context managers) + interprocedural ownership (freshness) analysis + order-sensitivity analysis of set iteration + idempotent process-state writes + memoisation / memo-key dependence",
     text="Static argument (A) for the state clauses: set/clear of the colour context is paired on every normal and exceptional exit; "
          "no process state is written except idempotent constant registrations; no time/random/env/hash-order dependence; no "
          "memoisation. Ownership (A relative to the alias model): every store or mutator on a user-facing component on the "
@@ -76,7 +77,7 @@ CHECKS["C14"] = dict(
     ref="DESIGN.md §4 C14")
 
 CHECKS["C15"] = dict(
-    technique="shared-state inventory + effect analysis over the call graph (sufficient condition for schedule independence)",
+    technique="shared-state inventory + store-site effect analysis over the call graph (sufficient condition for schedule independence); idempotent registration decided by enumerating the source's literal (name, class) pairs",
     text="Static argument (A, sufficient condition): no function reachable from rtf_encode writes process-shared mutable state "
          "(module-level containers/instances, singleton attributes, class-level containers or rebindable attributes, including "
          "those reached through self), except state held in contextvars.ContextVar/threading.local and idempotent registrations "
@@ -87,7 +88,7 @@ CHECKS["C15"] = dict(
     ref="DESIGN.md §4 C15")
 
 CHECKS["C06"] = dict(
-    technique="decision-table extraction (exhaustive over placement x first x last and guard atoms) + syntactic block order + who-may-convert rule",
+    technique="decision tables exhaustive over presence x placement x first/last x needs_header (render, figure path, predicates) from abstract evaluation with one generic page/figure iteration + geometry words evaluated to symbolic strings + who-may-convert rule + memo-key dependence",
     text="Static argument (A) for the decision logic: the two placement predicates and the figure path's inline predicates are "
          "extracted as decision tables and equal the specification on every row; every emit site of PageRenderer.render is shown "
          "iff component present ∧ spec(its placement field) over all valuations of its guard; block order and once-ness are "
@@ -99,7 +100,7 @@ CHECKS["C06"] = dict(
     ref="DESIGN.md §4 C06")
 
 CHECKS["C13"] = dict(
-    technique="polars-expression lint (null-aware comparison with shifted columns) + loop/dominance rules over the grouping service",
+    technique="abstract evaluation (LDT) of the suppression/restoration functions with polars operators as uninterpreted function symbols, judged on the built expression terms + accumulator as linear form + CFG dominance of validation",
     text="Static argument (A) for the null clause: every comparison with a shifted column in the suppression functions is null-aware. "
          "Necessary conditions (N): hierarchical show-condition = first row ∨ change of every higher level ∨ own change, combined by "
          "OR and evaluated on the unsuppressed frame; only the group column is rewritten (to null); page-start indices are "
@@ -110,7 +111,7 @@ CHECKS["C13"] = dict(
     ref="DESIGN.md §4 C13")
 
 CHECKS["C16"] = dict(
-    technique="dataflow identity + linear-form cursor partition + table/offset agreement + who-may-convert rule + loop-shape rules",
+    technique="dataflow identity of the payload + slice-bound partition of the hex lines + offsets/marker set read from the parser's own expressions (generic scan iteration, marker byte over all 256 values) + decision tables (suffix x MIME, _get_dimension) + generic per-figure iteration + who-may-convert rule",
     text="Static argument (A) for payload and tables: file bytes (open rb, read, unmemoised) flow unmodified to bytes.hex(), the hex "
          "string is partitioned exactly by range(0,len,k)/[i:i+k] with k even, whitespace-joined; suffix/MIME/blip tables equal the "
          "documented ones; PNG IHDR and JPEG SOF offsets/marker set equal the format specifications; goal sizes use the shared "
@@ -120,7 +121,7 @@ CHECKS["C16"] = dict(
     ref="DESIGN.md §4 C16")
 
 CHECKS["C17"] = dict(
-    technique="writer/reader layout agreement from abstract document shapes + CFG dominance over assemble_rtf",
+    technique="abstract evaluation (SDT) of assemble_rtf over a symbolic input list (generic position K of N, all valuations, position classes decided exactly) + writer/reader layout agreement from abstract document shapes + CFG ordering of reads/writes + structural content-skip rule",
     text="Necessary conditions (N): from the abstract document shape of each encode path, the line offset between the last 'fcharset' "
          "line and the first body line equals the constant find_start_index adds, the font-table closing line carries nothing else, "
          "and every document ends with a line that is exactly '}'; in assemble_rtf the FileNotFoundError guard over all inputs "
@@ -131,18 +132,18 @@ CHECKS["C17"] = dict(
     ref="DESIGN.md §4 C17")
 
 CHECKS["C18"] = dict(
-    technique="CFG dominance with exceptional edges + path-derivation dataflow over the four writers",
+    technique="CFG with exceptional edges per writer + dataflow of path locations (target / temp / converter result): ordering of target touches after encode, convert and type test; temporary resources released on every exit",
     text="Static argument (A) for ordering: in write_rtf the rtf_encode() call dominates every filesystem operation on the target and "
          "the written value is its single-assigned result; in write_docx/html/pdf every temporary resource is a "
          "with-TemporaryDirectory item (or a context manager whose yield is protected by try/finally cleanup), every write goes "
          "to a temp-derived path except shutil.move(converter output, target), which is dominated by convert and the "
-         "isinstance(Path) raise-guard inside both with blocks. Sibling agreement of the three converters (N).",
+         "isinstance(Path) raise-guard inside both with blocks.",
     note=TRUSTED + "TemporaryDirectory removes its tree on exit; shutil.move within one file system. Not decided: atomicity of "
          "shutil.move across file systems; LibreOffice's own temporary files.",
     ref="DESIGN.md §4 C18")
 
 CHECKS["C20"] = dict(
-    technique="linear-form normalisation of unit lambdas + table inverse check + CFG dominance of validation",
+    technique="abstract evaluation of get_string_width with unit over its declared Literal domain: monomial normal forms W, W/dpi, 25.4*W/dpi; validation raises on every unsupported valuation; size/text reach the loader as the argument symbols; exhaustive font tables; memo-key dependence",
     text="Decides only the clauses visible in rtflite's source: unit conversions are exact multiples (A), number<->name maps are "
          "inverse, cover 1..10 and resolve to one font file (A, exhaustive), font/unit membership checks dominate every return and "
          "raise ValueError (A), the requested size and text reach the font loader/measurement unmodified (N). The numeric clauses "
@@ -153,7 +154,7 @@ CHECKS["C20"] = dict(
     ref="DESIGN.md §4 C20")
 
 CHECKS["C04"] = dict(
-    technique="decision-table extraction of the page-break loop body (exhaustive over its atoms) + linear-form guards + look-ahead/dataflow rules",
+    technique="decision table of the page-break loop body with atoms classified by meaning through integer linear forms (exhaustive over consulted atoms, post-state as linear forms) + dataflow of forced-break flags + role-based recognition of row-wise change detection",
     text="Static argument (A) for the decision logic: the loop body of _assign_pages is evaluated over the atoms subline start, group "
          "start, new_page, i>0, current_rows>0, overflow; on all consistent rows the page counter increments exactly when "
          "current_rows>0 ∧ (subline start ∨ (new_page ∧ group start) ∨ overflow), the page is stored unconditionally, current_rows "
@@ -165,7 +166,7 @@ CHECKS["C04"] = dict(
     ref="DESIGN.md §4 C04")
 
 CHECKS["C05"] = dict(
-    technique="decision tables for the three 'spanning rows shown' sites + linear forms + loop/flag discipline rules",
+    technique="abstract evaluation (LDT) of one generic iteration of the boundary/level loops and of the paginate functions over uninterpreted symbols, all valuations enumerated, judged as terms + decision tables for the three 'spanning rows shown' sites + linear forms",
     text="Necessary conditions (N), decision-table equality (A) for R05.2: heading values and boundaries come from the page's own "
          "(start_row, end_row) with page_relative_row = row_idx+1-start_row; 'spanning rows shown' at render and _render_body and "
          "'page_by columns removed' in prepare_dataframe are the same boolean function of (new_page, pageby_row); the divider literal "
@@ -176,7 +177,7 @@ CHECKS["C05"] = dict(
     ref="DESIGN.md §4 C05")
 
 CHECKS["C07"] = dict(
-    technique="decision-table extraction of the border logic with lazy atom discovery, exhaustive over 392 configurations, vs the documented hierarchy",
+    technique="decision-table extraction of the border logic with lazy atom discovery, exhaustive over 392 configurations + abstract evaluation of header/override/section sites (generic iterations) + value tracing of deep copies + CFG path property + memo-key dependence analysis",
     text="Static argument (A) for the decision logic: _apply_pagination_borders with its helpers inlined is evaluated symbolically; "
          "every leaf's effects (row, side, style source; component overrides) are compared with the three-tier hierarchy on every "
          "configuration of first/last x header x footnote{text,as_table,placement} x source{...} (exhaustive). Plus: header top-edge "
@@ -187,7 +188,7 @@ CHECKS["C07"] = dict(
     ref="DESIGN.md §4 C07, appendix C")
 
 CHECKS["C02"] = dict(
-    technique="cursor-partition and index-agreement rules in linear normal form + shared decision tables + effect analysis of the per-cell text pipeline",
+    technique="abstract evaluation (TDT/LDT: uninterpreted symbols, one generic loop iteration, all valuations of consulted conditions) of the slicing layers and of _encode's cell loop, judged as terms and linear forms + structural provenance rule for column removal + effect analysis of the per-cell text pipeline",
     text="Structural necessary conditions (N): the slicing layers are cursor partitions (re-slice by cumulative heights twice; "
          "[prev:boundary) segments plus tail with row_offset = slice lower bound); a page is the [min,max] slice of the rows "
          "assigned to it and every row gets exactly one monotone page number (C04's tables); cell (i,j) is df.row(i)[j] with "
@@ -199,7 +200,7 @@ CHECKS["C02"] = dict(
     ref="DESIGN.md §4 C02")
 
 CHECKS["C03"] = dict(
-    technique="budget ledger (emitter vs reservation guard comparison) + dataflow of the estimator inputs + shared decision table / linear forms",
+    technique="budget ledger: reservation terms decomposed by role and compared with the emitters' guard atoms + signature-bound dataflow of the estimator inputs + linear forms of displayed-column widths + shared decision table of the page-break loop",
     text="Structural necessary conditions (N): every per-page row emitter of PageRenderer.render is paired with a reservation term or "
          "a per-row budget term whose guard is at least as wide; the break guard and available rows in normal form with the "
          "exhaustive break table (C04); the estimator receives the cell's own text and column width, single-assigned per cell, "
@@ -211,7 +212,7 @@ CHECKS["C03"] = dict(
     ref="DESIGN.md §4 C03")
 
 CHECKS["C08"] = dict(
-    technique="width-provenance dataflow + column-space agreement + linear normal form of the boundary formula",
+    technique="abstract evaluation (TDT) of width producers and consumers as terms (running-sum monomial of _col_widths, round(width*1440), per-section inheritance) + call-site width provenance through temporaries and if/else arms + structural column-removal provenance",
     text="Structural necessary conditions (N): every Cell.width is col_widths[j] or the table width; every row encoder receives "
          "document.rtf_page.col_width and hands it unchanged to Utils._col_widths with the component's own relative widths; body "
          "widths come from the reduced attributes; automatic headers re-base their widths to the displayed columns; widths and "
@@ -223,7 +224,7 @@ CHECKS["C08"] = dict(
     ref="DESIGN.md §4 C08")
 
 CHECKS["C09"] = dict(
-    technique="attribute consumption completeness + binding-table agreement at sibling constructor sites + lookup normal form + row/column space rules",
+    technique="attribute consumption completeness (set logic) + binding table and lookup index forms read off constructor-argument terms of an abstract evaluation with generic (i, j) + list-shape/alias domain for BroadcastValue.to_list + structural column-removal provenance",
     text="Structural necessary conditions (N): every declared attribute reaches an emitter or a listed structural consumer; the "
          "(model field <- attribute) binding table holds at all TextContent/Cell/Row constructor sites of the three encoders; the "
          "lookup is BroadcastValue(value=attr).iloc(row+row_offset, col) with iloc = value[r%R][c%C] at (i,j); row_offset equals the "
